@@ -184,6 +184,8 @@ class ParamOnlyDataParser(DataParser):
 
     @_(
         "param_introduction spec_parameters",
+        # every parameter has a default: e.g., a bare ``SDEF``
+        "param_introduction",
     )
     def param_data_input(self, p):
         ret = {}
